@@ -167,44 +167,15 @@ def d4_4(ctx):
     d4_10(ctx)
 
 
-@rule(P, "D4.5", "T-ACC", floor=4)
+@rule(P, "D4.5", "T-WITNESS", floor=4)
 def d4_5(ctx):
-    """Read fragments: offset from 0, += len(value bytes of this response), next request at that offset, continue exactly on status 6, join in order."""
-    fn = ctx.model.func(f"{LX}:LogixDriver._send_read_fragmented")
-    f = fn.node
-    loops = [n for n in walk(f) if isinstance(n, ast.While)]
-    if len(loops) != 1:
-        ctx.undecided(ckey(fn, "loop"), f, "expected one loop")
-        return
-    lp = loops[0]
-    inits = [n for n in walk(f) if isinstance(n, ast.Assign) and atom_name(n.targets[0]) == "offset" and not any(x is n for x in walk(lp))]
-    upd = [n for n in walk(lp) if isinstance(n, ast.AugAssign) and atom_name(n.target) == "offset"]
-    resp = [n for n in lp.body if isinstance(n, (ast.Assign, ast.AnnAssign)) and isinstance(n.value, ast.Call) and isinstance(n.value.func, ast.Attribute) and n.value.func.attr == "send"]
-    rv = atom_name(resp[0].target if isinstance(resp[0], ast.AnnAssign) else resp[0].targets[0]) if resp else None
-    ok = len(inits) == 1 and ctx.folder.eval(inits[0].value, fn.module) == 0 and len(upd) == 1 and isinstance(upd[0].op, ast.Add) and src(upd[0].value).replace(" ", "") == f"len({rv}.value_bytes)" and len(resp) == 1
-    ctx.check(ok, ckey(fn, "offset"), upd[0] if upd else lp, "offset = number of value bytes received so far", "the next fragment offset is not the running count of value bytes received (gaps or overlaps in the reassembled value)", update=[src(u) for u in upd])
-    nxt = [c for c in walk(lp) if isinstance(c, ast.Call) and attr_path(c.func) == "ReadTagFragmentedRequestPacket.from_request"]
-    ok = len(nxt) == 1 and [atom_name(a) for a in nxt[0].args] == ["self._sequence", "request", "offset"] and upd and upd[0].lineno < nxt[0].lineno and isinstance(getattr(nxt[0], "_parent", None), ast.Assign) and atom_name(nxt[0]._parent.targets[0]) == "request"
-    ctx.check(ok, ckey(fn, "next-request"), nxt[0] if nxt else lp, "follow-up request = from_request(sequence, request, offset) after the offset update", "the follow-up fragment request does not carry the updated offset")
-    cont = [n for n in lp.body if isinstance(n, ast.If)]
-    ok = False
-    if cont:
-        c = cont[-1]
-        t = c.test
-        ok = isinstance(t, ast.Compare) and attr_path(t.left) == f"{rv}.service_status" and isinstance(t.ops[0], ast.Eq) and ctx.folder.eval(t.comparators[0], fn.module) == 6 and any(x is upd[0] for s in c.body for x in walk(s)) and any(isinstance(s, ast.Assign) and atom_name(s.targets[0]) == "offset" and isinstance(s.value, ast.Constant) and s.value.value is None for s in walk(c) if not any(s is y for b in c.body for y in walk(b)))
-        ok = ok and isinstance(lp.test, ast.Compare) and atom_name(lp.test.left) == "offset" and isinstance(lp.test.ops[0], ast.IsNot)
-    ctx.check(ok, ckey(fn, "continue"), cont[-1] if cont else lp, "continues exactly while the status is 6 (partial transfer)", "the fragment loop does not continue exactly on INSUFFICIENT_PACKETS (6)")
-    app = [c for c in walk(lp) if isinstance(c, ast.Call) and attr_path(c.func) == "responses.append" and atom_name(c.args[0]) == rv]
-    joins = [c for c in walk(f) if isinstance(c, ast.Call) and isinstance(c.func, ast.Attribute) and c.func.attr == "join" and isinstance(c.args[0], (ast.GeneratorExp, ast.ListComp))]
-    ok = len(app) == 1 and len(joins) == 1
-    if ok:
-        ge = joins[0].args[0]
-        ok = ctx.folder.eval(joins[0].func.value, fn.module) == b"" and atom_name(ge.generators[0].iter) == "responses" and attr_path(ge.elt) == f"{atom_name(ge.generators[0].target)}.value_bytes" and not ge.generators[0].ifs
-        par = getattr(joins[0], "_parent", None)
-        ok = ok and isinstance(par, ast.Assign) and attr_path(par.targets[0]) == "final_response.value_bytes"
-    ctx.check(ok, ckey(fn, "reassembly"), joins[0] if joins else f, "value = b''.join(resp.value_bytes for resp in responses) in arrival order", "fragments are not concatenated in arrival order from the same value_bytes attribute the offsets count")
-    allok = any(isinstance(n, ast.If) and isinstance(n.test, ast.Call) and call_name(n.test) == "all" and atom_name(n.test.args[0]) == "responses" for n in walk(f))
-    ctx.check(allok, ckey(fn, "all-fragments"), f, "a failed fragment fails the read", "a failed fragment no longer fails the whole read")
+    """Read fragments: the first request is at offset 0, each continuation at the number of value bytes received so far (the type
+    prefix of a reply does not count), the loop continues exactly while the reply status is 0x06, the value bytes are joined in
+    arrival order and parsed once.  Decided by folding `_send_read_fragmented` on witness reply sequences (D4.10: three fragments,
+    one fragment, structure data with its 4-byte prefix, a failing fragment, an unbuildable request)."""
+    from .driver import d4_10
+
+    d4_10(ctx)
 
 
 @rule(P, "D4.6", "T-WHO", floor=3)
